@@ -26,6 +26,9 @@ def run(rep, tier, seed):
         dict(name="hist_seta", maxinstr=2, maxhist=3, ops="OpsH3", points="PtsP1small", seeds="SeedsB", max_replay=mr or 30000),
         dict(name="hist_broadcast_assignment", maxinstr=2, maxhist=3, ops="OpsB2", points="PtsP1small", seeds="SeedsB", max_replay=mr or 30000),
         dict(name="hist_prod_square_reciprocal", maxinstr=2, maxhist=3, ops="OpsB1", points="PtsD2b", seeds="SeedsB", max_replay=mr or 30000),
+        dict(name="hist_pullback_after_driver_buffered", maxinstr=1, maxhist=3, ops="OpsDrvPb", points="NoPts", seeds="SeedsB", prefix="buffered", max_replay=mr or 30000),
+        dict(name="hist_pullback_after_driver_overwritten", maxinstr=1, maxhist=2, ops="OpsDrvPb", points="NoPts", seeds="SeedsB", prefix="overwritten", max_replay=mr or 30000),
+        dict(name="hist_pullback_after_driver", maxinstr=2, maxhist=2, ops="OpsDrvPb2", points="PtsOne", seeds="SeedsB", max_replay=mr or 30000),
         dict(name="hist_div", maxinstr=2 if q else 3, maxhist=3, ops="OpsH2", points="PtsD2b", seeds="SeedsB", max_replay=mr or 30000),
     ]
     if not q:
